@@ -17,6 +17,22 @@ from amoco.arch.core import *
 
 ISPECS = []
 
+
+def getE(obj, n):
+    """extended data register E[n] = D[n+1]:D[n]. Only even n designate a
+    register pair: an odd index is not a valid encoding."""
+    if n % 2 == 1:
+        raise InstructionError(obj)
+    return env.E[n]
+
+
+def getP(obj, n):
+    """extended address register P[n] = A[n+1]:A[n] (n even, see getE)."""
+    if n % 2 == 1:
+        raise InstructionError(obj)
+    return env.P[n]
+
+
 @ispec("32<[ disp1(16) disp2(8) {6d} ]", mnemonic="CALL")
 @ispec("32<[ disp1(16) disp2(8) {61} ]", mnemonic="FCALL")
 @ispec("32<[ disp1(16) disp2(8) {1d} ]", mnemonic="J")
@@ -75,7 +91,7 @@ def tricore_dd_arithmetic(obj, c, b):
 @ispec("32<[ c(4) {80} ---- b(4) ---- {0b} ]", mnemonic="MOV")
 def tricore_dd_arithmetic(obj, c, b):
     src = env.D[b]
-    dst = env.E[c]
+    dst = getE(obj, c)
     obj.operands = [dst, src.signextend(64)]
     obj.type = type_data_processing
 
@@ -83,7 +99,7 @@ def tricore_dd_arithmetic(obj, c, b):
 def tricore_dd_arithmetic(obj, c, b, a):
     src1 = env.D[a]
     src2 = env.D[b]
-    dst = env.E[c]
+    dst = getE(obj, c)
     obj.operands = [dst, env.composer([src2,src1])]
     obj.type = type_data_processing
 
@@ -238,7 +254,7 @@ def tricore_edd_arithmetic(obj, c, b, a):
     src2 = env.D[b]
     if c%2:
         raise InstructionError(obj)
-    dst = env.E[c]
+    dst = getE(obj, c)
     obj.operands = [dst, src1, src2]
     obj.type = type_data_processing
 
@@ -256,7 +272,7 @@ def tricore_dddc(obj, c, d, b, a):
 def tricore_extr(obj, c, d, a):
     if d%2:
         raise InstructionError(obj)
-    width = env.E[d][32:37]
+    width = getE(obj, d)[32:37]
     src1 = env.D[a]
     dst = env.D[c]
     obj.operands = [dst, src1, width]
@@ -266,7 +282,7 @@ def tricore_extr(obj, c, d, a):
 def tricore_extr(obj, c, d, a):
     if d%2:
         raise InstructionError(obj)
-    src1 = env.E[d]
+    src1 = getE(obj, d)
     src2 = env.D[a]
     dst = env.D[c]
     obj.operands = [dst, src1, src2]
@@ -275,7 +291,7 @@ def tricore_extr(obj, c, d, a):
 @ispec("32<[ c(4) {08} -- 00 ---- a(4) {4b} ]", mnemonic="UNPACK")
 def tricore_extr(obj, c, d, a):
     src = env.D[a]
-    dst = env.E[c]
+    dst = getE(obj, c)
     obj.operands = [dst, src]
     obj.type = type_data_processing
 
@@ -307,7 +323,7 @@ def tricore_extr(obj, c, pos, width, a):
 def tricore_imask(obj, c, pos, width, const):
     if c%2:
         raise InstructionError(obj)
-    dst = env.E[c]
+    dst = getE(obj, c)
     obj.operands = [dst, env.cst(const,4), env.cst(pos,5), env.cst(width,5)]
     obj.type = type_data_processing
 
@@ -316,7 +332,7 @@ def tricore_imask(obj, c, d, width, const):
     src2 = env.D[d]
     if c%2:
         raise InstructionError(obj)
-    dst = env.E[c]
+    dst = getE(obj, c)
     obj.operands = [dst, env.cst(const,4), src2, env.cst(width,5)]
     obj.type = type_data_processing
 
@@ -325,7 +341,7 @@ def tricore_imask(obj, c, pos, width, b):
     src1 = env.D[b]
     if c%2:
         raise InstructionError(obj)
-    dst = env.E[c]
+    dst = getE(obj, c)
     obj.operands = [dst, src1, env.cst(pos,5), env.cst(width,5)]
     obj.type = type_data_processing
 
@@ -335,7 +351,7 @@ def tricore_imask(obj, c, d, width, b):
     src2 = env.D[d]
     if c%2:
         raise InstructionError(obj)
-    dst = env.E[c]
+    dst = getE(obj, c)
     obj.operands = [dst, src1, src2, env.cst(width,5)]
     obj.type = type_data_processing
 
@@ -351,7 +367,7 @@ def tricore_imask(obj, c, d, const, a):
     src1 = env.D[a]
     if d%2:
         raise InstructionError(obj)
-    src3 = env.E[d]
+    src3 = getE(obj, d)
     dst = env.D[c]
     obj.operands = [dst, src1, env.cst(const,4), src3]
     obj.type = type_data_processing
@@ -378,7 +394,7 @@ def tricore_imask(obj, c, d, b, a):
     src2 = env.D[b]
     if d%2:
         raise InstructionError(obj)
-    src3 = env.E[d]
+    src3 = getE(obj, d)
     dst = env.D[c]
     obj.operands = [dst, src1, src2, src3]
     obj.type = type_data_processing
@@ -404,7 +420,7 @@ def tricore_extr(obj, c, d, width, a):
 @ispec("32<[ c(4) {09} --00 ---- a(4) {4b} ]", mnemonic="BSPLIT")
 def tricore_edd_arithmetic(obj, c, a):
     src1 = env.D[a]
-    dst = env.E[c]
+    dst = getE(obj, c)
     obj.operands = [dst, src1]
     obj.type = type_data_processing
 
@@ -556,7 +572,7 @@ def tricore_ddc_arithmetic(obj, const4, a):
 
 @ispec("16<[ ~const4(4) a(4) {d2} ]", mnemonic="MOV")
 def tricore_ec_arithmetic(obj, const4, a):
-    dst = env.E[a]
+    dst = getE(obj, a)
     src = env.cst(const4.int(-1),64)
     obj.operands = [dst, src]
     obj.type = type_data_processing
@@ -747,7 +763,7 @@ def tricore_swap(obj, off2, off1, b, a):
     dst = env.D[a]
     src1 = env.A[b]
     src2 = env.cst((off2<<6)+off1,10)
-    src3 = env.E[a]
+    src3 = getE(obj, a)
     obj.operands = [dst, src1, src2, src3]
     obj.type = type_data_processing
 
@@ -778,10 +794,10 @@ def tricore_cond_ddc(obj, c, d, const9, a):
 @ispec("32<[ c(4) d(4) 010 ~const9(9) a(4) {33} ]", mnemonic="MSUB_U", opt4="64+(32+K9)->64")
 @ispec("32<[ c(4) d(4) 111 ~const9(9) a(4) {33} ]", mnemonic="MSUBS_U", opt4="64+(32+K9)->64")
 def tricore_cond_eec(obj, c, d, const9, a):
-    cond = env.E[d]
+    cond = getE(obj, d)
     src1 = env.D[a]
     src2 = env.cst(const9.int(-1),32)
-    dst = env.E[c]
+    dst = getE(obj, c)
     obj.operands = [dst, cond, src1, src2]
     obj.type = type_data_processing
 
@@ -842,10 +858,10 @@ def tricore_cond_eec(obj, c, d, const9, a):
 @ispec("32<[ c(4) d(4) 100100 n(2) b(4) a(4) {63} ]", mnemonic="MSUBS_Q", op4="32+(16U*16U)->32")
 @ispec("32<[ c(4) d(4) 111100 n(2) b(4) a(4) {63} ]", mnemonic="MSUBS_Q", op4="64+(16U*16U)->64")
 def tricore_cond_eec(obj, c, d, n, b, a):
-    cond = env.E[d]
+    cond = getE(obj, d)
     src1 = env.D[a]
     src2 = env.D[b]
-    dst = env.E[c]
+    dst = getE(obj, c)
     obj.operands = [dst, cond, src1, src2, env.cst(n,2)]
     obj.type = type_data_processing
 
@@ -871,10 +887,10 @@ def tricore_cond_ddd(obj, c, d, b, a):
 @ispec("32<[ c(4) d(4) {68}      b(4) a(4) {03} ]", mnemonic="MADD_U", opt4="64+(32*32)->64")
 @ispec("32<[ c(4) d(4) {e8}      b(4) a(4) {03} ]", mnemonic="MADDS_U", opt4="64+(32*32)->64")
 def tricore_cond_ddd(obj, c, d, b, a):
-    cond = env.E[d]
+    cond = getE(obj, d)
     src1 = env.D[a]
     src2 = env.D[b]
-    dst = env.E[c]
+    dst = getE(obj, c)
     obj.operands = [dst, cond, src1, src2]
     obj.type = type_data_processing
 
@@ -947,9 +963,9 @@ def tricore_system(obj, a):
 def tricore_eee(obj, c, d, b):
     if d%2 or b%2 or c%2:
         raise InstructionError(obj)
-    src1 = env.E[d]
-    src2 = env.E[b]
-    dst = env.E[c]
+    src1 = getE(obj, d)
+    src2 = getE(obj, b)
+    dst = getE(obj, c)
     obj.operands = [dst, src1, src2]
     obj.type = type_data_processing
 
@@ -1099,8 +1115,8 @@ def tricore_jcc(obj, disp, n, a, h):
 def tricore_ld(obj, off2, off3, off1, off4, a):
     dst = env.D[a]
     if obj.mnemonic in ("LD_A", "LEA")  : dst = env.A[a]
-    if obj.mnemonic in ("LD_D","LDMST") : dst = env.E[a]
-    if obj.mnemonic=="LD_DA": dst = env.P[a]
+    if obj.mnemonic in ("LD_D","LDMST") : dst = getE(obj, a)
+    if obj.mnemonic=="LD_DA": dst = getP(obj, a)
     src = off1//off2//off3
     obj.operands = [dst, env.composer([env.cst(src.int(),28),env.cst(off4.int(),4)])]
     obj.type = type_data_processing
@@ -1124,8 +1140,8 @@ def tricore_ld(obj, off2, off3, off1, off4, a):
 def tricore_st(obj, off2, off3, off1, off4, a):
     src = env.D[a]
     if obj.mnemonic in ("ST_A",)  : src = env.A[a]
-    if obj.mnemonic in ("ST_D","LDMST") : src = env.E[a]
-    if obj.mnemonic=="ST_DA": src = env.P[a]
+    if obj.mnemonic in ("ST_D","LDMST") : src = getE(obj, a)
+    if obj.mnemonic=="ST_DA": src = getP(obj, a)
     addr = off1//off2//off3
     obj.operands = [env.composer([env.cst(addr.int(),28),env.cst(off4.int(),4)]), src]
     obj.type = type_data_processing
@@ -1199,9 +1215,9 @@ def tricore_ld(obj, off2, off1, b, a):
     dst = env.D[a]
     if   obj.mnemonic=="LD_A"  : dst = env.A[a]
     elif obj.mnemonic=="LEA"   : dst = env.A[a]
-    elif obj.mnemonic=="LD_D"  : dst = env.E[a]
-    elif obj.mnemonic=="LDMST" : dst = env.E[a]
-    elif obj.mnemonic=="LD_DA" : dst = env.P[a]
+    elif obj.mnemonic=="LD_D"  : dst = getE(obj, a)
+    elif obj.mnemonic=="LDMST" : dst = getE(obj, a)
+    elif obj.mnemonic=="LD_DA" : dst = getP(obj, a)
     obj.b = b
     src1 = env.A[b]
     off10 = off1//off2
@@ -1254,9 +1270,9 @@ def tricore_ld(obj, off2, off1, b, a):
 def tricore_st(obj, off2, off1, b, a):
     dst = env.D[a]
     if   obj.mnemonic=="ST_A"  : dst = env.A[a]
-    elif obj.mnemonic=="ST_D"  : dst = env.E[a]
-    elif obj.mnemonic=="ST_DA" : dst = env.P[a]
-    elif obj.mnemonic=="LDMST" : dst = env.E[a]
+    elif obj.mnemonic=="ST_D"  : dst = getE(obj, a)
+    elif obj.mnemonic=="ST_DA" : dst = getP(obj, a)
+    elif obj.mnemonic=="LDMST" : dst = getE(obj, a)
     obj.b = b
     src1 = env.A[b]
     off10 = off1//off2
@@ -1273,7 +1289,7 @@ def tricore_st(obj, off2, off1, b, a):
 @ispec("32<[ ~off2(4) 01 1000 ~off1(6) b(4) a(4) {49} ]", mnemonic="SWAP_W", mode="Pre-increment")
 def tricore_ld(obj, off2, off1, b, a):
     dst = env.D[a]
-    src1 = env.P[b]
+    src1 = getP(obj, b)
     off10 = off1//off2
     src2 = env.cst(off10.int(-1),10)
     obj.operands = [src1, src2, dst]
@@ -1301,7 +1317,7 @@ def tricore_ld(obj, off2, off1, b):
 def tricore_ld(obj, off2, off3, off1, b, a):
     dst = env.D[a]
     if obj.mnemonic in ("LD_A", "LEA"): dst = env.A[a]
-    if obj.mnemonic=="LD_D": dst = env.E[a]
+    if obj.mnemonic=="LD_D": dst = getE(obj, a)
     src1 = env.A[b]
     off16 = off1//off2//off3
     src2 = env.cst(off16.int(-1),32)
@@ -1315,7 +1331,7 @@ def tricore_ld(obj, off2, off3, off1, b, a):
 def tricore_st(obj, off2, off3, off1, b, a):
     dst = env.D[a]
     if obj.mnemonic=="ST_A": dst = env.A[a]
-    if obj.mnemonic=="ST_D": dst = env.E[a]
+    if obj.mnemonic=="ST_D": dst = getE(obj, a)
     src1 = env.A[b]
     off16 = off1//off2//off3
     src2 = env.cst(off16.int(-1),32)
@@ -1353,7 +1369,7 @@ def tricore_st(obj, const):
 def tricore_ld(obj, b, c):
     dst = env.D[c]
     if obj.mnemonic=="LD_A": dst = env.A[c]
-    if obj.mnemonic=="LD_D": dst = env.E[c]
+    if obj.mnemonic=="LD_D": dst = getE(obj, c)
     src1 = env.A[b]
     src2 = env.cst(0,32)
     obj.operands = [dst, src1, src2]
@@ -1368,7 +1384,7 @@ def tricore_ld(obj, b, c):
 def tricore_st(obj, b, c):
     dst = env.D[c]
     if obj.mnemonic=="ST_A": dst = env.A[c]
-    if obj.mnemonic=="ST_D": dst = env.E[c]
+    if obj.mnemonic=="ST_D": dst = getE(obj, c)
     src1 = env.A[b]
     src2 = env.cst(0,32)
     obj.operands = [src1, src2, dst]
@@ -1461,7 +1477,7 @@ def tricore_mov(obj, c, const16):
 @ispec("32<[ c(4) ~const16(16) ---- {fb} ]", mnemonic="MOV")
 def tricore_mov(obj, c, const16):
     src = env.cst(const16.int(-1),64)
-    dst = env.E[c]
+    dst = getE(obj, c)
     obj.operands = [dst, src]
     obj.type = type_data_processing
 
